@@ -53,6 +53,10 @@ def tasks(tier):
         ts.append(Task('props.wire:run', name='C02/wire.const-1d.%d' % n, fname='c02_const_1d', kwargs=dict(n=n), timeout=600))
     for fz in ((), (1,), (2,)):
         ts.append(Task('props.wire:run', name='C02/wire.const-2d.3.%s' % (''.join(map(str, fz)) or 'none'), fname='c02_const_2d', kwargs=dict(n=3, frozen=list(fz)), timeout=900))
+    ts.append(Task('props.wire:run', name='C02/wire.const-3d.3.none', fname='c02_const_kd', kwargs=dict(K=3, n=3, frozen=[]), timeout=1500))
+    if tier == 'thorough':
+        ts.append(Task('props.wire:run', name='C02/wire.const-3d.3.2', fname='c02_const_kd', kwargs=dict(K=3, n=3, frozen=[2]), timeout=1500))
+        ts.append(Task('props.wire:run', name='C02/wire.const-2d.4.none', fname='c02_const_kd', kwargs=dict(K=2, n=4, frozen=[]), timeout=1500))
     ts.append(Task('props.wire:run', name='C02/wire.compute_delj_py', fname='c02_compute_delj_py', timeout=300))
     ts.append(Task('props.C02:t_pyx', name='C02/pyx-argument-order', timeout=120))
     ts += bounded_tasks('C02', tier)
